@@ -722,3 +722,14 @@ Proof.
   destruct (fold_max_from_spec firsts 0) as [_ Hm]. rewrite Forall_forall in Hm. specialize (Hm _ Hf).
   rewrite Forall_forall in Hm. specialize (Hm _ Ha). lia.
 Qed.
+
+(* ---------------- all frames of one request ---------------- *)
+Lemma frames_ts_spec stmt gen k :
+  List.length (frames_ts stmt gen k) = S k /\
+  (forall f, In f (frames_ts stmt gen k) -> f = choose_ts stmt gen) /\
+  (forall t, stmt = Some t -> frames_ts stmt gen k = repeat (Some t) (S k)).
+Proof.
+  unfold frames_ts. split; [apply repeat_length|]. split.
+  - intros f H. apply repeat_spec in H. exact H.
+  - intros t ->. reflexivity.
+Qed.
